@@ -63,8 +63,8 @@ SPEC = {
   'model_partial': [
     'first path: CLOSED (flatten_first_path, state_first_path, split_first_path, pop_first_path) — the DFS order of flatten is made explicit (`trace`: encounters and registrations alongside ref_index) and every Variable is listed / returned under the path of its first encounter.',
     'update values: CLOSED (update_values) — for arbitrary states every Variable ends as the fold, in state order, of exactly the leaves whose path reaches it (last write wins); plus update_identity / update_frame / update_sets_path.',
-    'pop with path-dependent filters: pop_any_filters proves what the code does for ARBITRARY filters (entry returned at the path of the encounter where a filter first matched, state = first filter matching that (path, Variable) pair, no Variable twice, only attributes removed, every removed attribute is a reference to a returned Variable); pop_exact (exactness + unreachability) needs path-independent filters, and the two closed theorems pop_path_filter_keeps_earlier_alias / pop_path_filter_removes_later_alias show why. NOT proved: for path-dependent filters, that the popping encounter is the FIRST matching encounter in DFS order and that every later reference is removed (model correspondence covers both).',
-    'array attributes of graph nodes: update_values speaks about Variables; the in-place rewrite of an array attribute by a raw leaf is covered by update_identity (shape) and update_frame only.',
+    'pop with path-dependent filters: CLOSED (pop_first_match / PopOrdered, pop_any_filters) — for arbitrary filters a Variable is returned at its FIRST matching encounter in DFS order, every Variable with a matching encounter is returned, and every reference met at or after that encounter is removed; the stronger clause "unreachable afterwards" is false for path-dependent filters (closed counter-example pop_path_filter_keeps_earlier_alias, tied to the implementation by corpus/C03/pop_path_filter_aliases.json and the oracle ref_pop) and is proved for path-independent filters (pop_exact).',
+    'array attributes under update: CLOSED for one raw leaf (update_sets_array: exactly that slot of exactly that node changes) together with update_frame / update_identity for everything else. NOT proved in Lean: the fold statement for SEVERAL raw leaves aliasing the same array slot (last write wins), which update_values proves for Variables only; model correspondence and update_oracle cover it.',
   ],
 }
 
@@ -1386,6 +1386,9 @@ def check_one(ctx, plan, mo, stream):
     pfil = plan['pop_filters']
     if pp[0] == 'ok':
       why = pop_oracle(before, pfil, pp[1], n0)
+      exp = ref_pop(before, pfil)
+      if not why and (exp is None or exp[0][:n0] != pp[1]['heap'] or exp[1] != pp[1]['states']):
+        why = 'pop differs from "pop each Variable at its first matching encounter in DFS order, return it there, remove that and every later reference" (pop_first_match)'
       if why:
         shared_hit = m_pop_orig[0] == 'ok' and m_pop[0] == 'ok' and m_pop_orig[1] != m_pop[1]
         ctx.violation('pop-shared-variable' if shared_hit else 'pop-wrong', why, dict(case, after=pp[1]))
@@ -1465,6 +1468,57 @@ def stree_order(upd):
     cur[p[-1]] = ('leaf', leaf)
   rec([], root)
   return out
+
+
+def ref_pop(G, filters):
+  """Independent reference for pop with ARBITRARY filters (theorem pop_first_match): walk the encounters of
+  Variables in DFS order (sorted keys, every graph node once); a Variable is popped at its first encounter
+  where some filter matches (path, Variable), returned there, and its reference is removed at that and at
+  every later encounter. Returns (expected heap, expected states) or None when a removal would be needed
+  inside a list/tuple/dict (pop raises)."""
+  heap = json.loads(json.dumps(G['heap']))
+  seen = set()
+  enc = []
+
+  def visit(path, v, owner, key):
+    if v is None or 's' in v or 'a' in v:
+      return
+    if 'r' in v and 'vt' in heap[v['r']]:
+      enc.append((v['r'], list(path), owner, key))
+      return
+    node(path, v)
+
+  def node(path, v):
+    owner = None
+    if v is not None and 'r' in v:
+      if v['r'] in seen:
+        return
+      seen.add(v['r'])
+      owner = v['r']
+    for k, c in children(G, v) or []:
+      visit(path + [k], c, owner, k)
+
+  root = G['root']
+  if root is not None and 'r' in root and 'vt' in heap[root['r']]:
+    return None
+  node([], root)
+  states = [[] for _ in filters]
+  popped = set()
+  for b, p, owner, key in enc:
+    o = G['heap'][b]
+    leaf = {'vt': o['vt'], 'val': o['val'], 'md': o['md']}
+    if b not in popped:
+      i = first_match(filters, p, leaf)
+      if i >= len(filters):
+        continue
+      if owner is None:
+        return None
+      popped.add(b)
+      states[i].append([p, leaf])
+    elif owner is None:
+      return None
+    heap[owner]['attrs'] = [kv for kv in heap[owner]['attrs'] if kv[0] != key]
+  return heap, states
 
 
 def pop_oracle(before, filters, after, n0):
